@@ -37,6 +37,10 @@ func (c *curvePoint) Set(a *curvePoint) {
 
 // IsOnCurve returns true iff c is on the curve.
 func (c *curvePoint) IsOnCurve() bool {
+	// checked on a copy: the check must not write to the point
+	a := &curvePoint{}
+	a.Set(c)
+	c = a
 	c.MakeAffine()
 	if c.IsInfinity() {
 		return true
